@@ -1,9 +1,9 @@
 import Ruint.Model.MulKernels
 import Ruint.Model.ShiftKernels
 import Ruint.Model.Add
-/-! Driver for C15: limb-slice kernels. Model = `Ruint.Limb.*` at base `W`, `Ruint.Shift.*`;
+/-! Driver for C15: limb-slice kernels. Model = `Ruint.Limb.*` at base `W`, `Ruint.ShiftK.*`;
     spec = the mathematical answer computed on `Nat` from the slice values. -/
-open Ruint Ruint.Limb Ruint.Shift
+open Ruint Ruint.Limb Ruint.ShiftK
 
 namespace Ruint.DrvC15
 
